@@ -618,6 +618,7 @@ theorem C01_roundtrip_inner_nodes (env : Env) (t : Tree) (q : Path) (name : Nat)
     (hids : (xmlIdValues env (.node (.element name) ks)).Nodup) (s : Str)
     (hs : toXmlString env t q = .ok s) :
     ∃ p X, standalone t q = some (.node .document [.node (.element name) (nsLeaves X ++ ks)]) ∧
+      Representable env (.node .document [.node (.element name) (nsLeaves X ++ ks)]) = true ∧
       parseString .document env s = .ok p ∧
       p.tree = .node .document [.node (.element name) (nsLeaves X ++ ks)] ∧ p.env = env ∧
       deepEqual (.node (.element name) (nsLeaves X ++ ks)) (.node (.element name) ks) = true := by
@@ -628,7 +629,7 @@ theorem C01_roundtrip_inner_nodes (env : Env) (t : Tree) (q : Path) (name : Nat)
   subst h2
   rw [h3] at hs
   obtain ⟨p, k1, k2, k3, _⟩ := C01_roundtrip_identical env _ hr s hs
-  refine ⟨p, X, h1, k1, k2, k3, ?_⟩
+  refine ⟨p, X, h1, hr, k1, k2, k3, ?_⟩
   have hfrag : RepresentableFragment env (.node .document [.node (.element name) (nsLeaves X ++ ks)]) = true := by
     simp only [Representable, Bool.and_eq_true] at hr; exact hr.1
   obtain ⟨_, _, hn, _⟩ := (representableFragment_iff env _).mp hfrag
@@ -642,6 +643,7 @@ theorem C01_roundtrip_inner (env : Env) (t : Tree) (hr : RepresentableFragment e
     (name : Nat) (ks : List Tree) (hat : t.at? q = some (.node (.element name) ks)) (s : Str)
     (hs : toXmlString env t q = .ok s) :
     ∃ p X, standalone t q = some (.node .document [.node (.element name) (nsLeaves X ++ ks)]) ∧
+      Representable env (.node .document [.node (.element name) (nsLeaves X ++ ks)]) = true ∧
       parseString .document env s = .ok p ∧
       p.tree = .node .document [.node (.element name) (nsLeaves X ++ ks)] ∧ p.env = env ∧
       deepEqual (.node (.element name) (nsLeaves X ++ ks)) (.node (.element name) ks) = true := by
@@ -657,13 +659,14 @@ theorem C01_roundtrip_inner_writable (env : Env) (t : Tree) (hr : RepresentableF
     (hw : namesWritable env t q = some true) :
     ∃ s p X, toXmlString env t q = .ok s ∧
       standalone t q = some (.node .document [.node (.element name) (nsLeaves X ++ ks)]) ∧
+      Representable env (.node .document [.node (.element name) (nsLeaves X ++ ks)]) = true ∧
       parseString .document env s = .ok p ∧
       p.tree = .node .document [.node (.element name) (nsLeaves X ++ ks)] ∧ p.env = env ∧
       deepEqual (.node (.element name) (nsLeaves X ++ ks)) (.node (.element name) ks) = true := by
   obtain ⟨henv, _, hn, _⟩ := (representableFragment_iff env t).mp hr
   obtain ⟨s, hs⟩ := (C01_inner_serialises env t q _ henv hn hat).mpr hw
-  obtain ⟨p, X, h1, h2, h3, h4, h5⟩ := C01_roundtrip_inner env t hr q name ks hat s hs
-  exact ⟨s, p, X, hs, h1, h2, h3, h4, h5⟩
+  obtain ⟨p, X, h1, h0, h2, h3, h4, h5⟩ := C01_roundtrip_inner env t hr q name ks hat s hs
+  exact ⟨s, p, X, hs, h1, h0, h2, h3, h4, h5⟩
 
 /-! Non-vacuity: `<r xmlns="urn:a" xmlns:p="urn:b" xmlns:q="urn:b">x<m xmlns:p="urn:a" q:w="v"><q:c/></m></r>`;
     the inner element `m` inherits the default namespace and `q` and RE-DECLARES `p`: `to_string(m)` writes
@@ -708,7 +711,7 @@ example : ∃ p, parseString .document c01InnerEnv c01InnerText = .ok p ∧ p.tr
     p.env = c01InnerEnv ∧
     deepEqual (.node (.element 4) c01InnerStandalone.kids.head!.kids)
       (.node (.element 4) [.node (.namespace 2 2) [], .node (.attribute 5 ['v']) [], .node (.element 3) []]) = true := by
-  obtain ⟨p, X, h1, h2, h3, h4, h5⟩ := C01_roundtrip_inner c01InnerEnv c01InnerDoc (by decide) [0, 4] 4 _ rfl
+  obtain ⟨p, X, h1, _, h2, h3, h4, h5⟩ := C01_roundtrip_inner c01InnerEnv c01InnerDoc (by decide) [0, 4] 4 _ rfl
     c01InnerText (by decide)
   have hX : standalone c01InnerDoc [0, 4] = some c01InnerStandalone := rfl
   rw [hX, Option.some.injEq] at h1
